@@ -201,22 +201,23 @@ Section Judge.
   Definition judge02 (ob : Z * list Z * Z * list Z) : verdict :=
     let '(cp, pre, ec, out) := ob in
     if ec =? 9 then VBad 9 [FZ cp] else          (* a panic is never an acceptable outcome *)
+    if ec =? 11 then VBad 11 [] else             (* a result returned by an earlier Do changed its bytes during this Do (aliases the pooled buffer) *)
     if ec =? 10 then VBad 10 [FZ cp; FZ oob] else   (* memory fault inside the native code (finding 207 is fixed: never acceptable; oob = number of
                                                        key lookups of the document that reach the native trie's off-by-one bound test) *)
     match m with
     | Ok b =>
       if ec =? 0 then
         if bytes_eqb out (pre ++ b) then VOk
-        else if res_is (j2t_text (mkPolicy num_drift false false) D o t text) pre out then VDrift 1   (* "-0" for a double; integers beyond 2^53 spelled with fraction/exponent *)
-        else if res_is (j2t_text (mkPolicy num_drift false true) D o t text) pre out then VKnown 208  (* api.js_conv on an i16 field: one extra byte *)
+        else if res_is (j2t_do (mkPolicy num_drift false false) D o t text) pre out then VDrift 1   (* "-0" for a double; integers beyond 2^53 spelled with fraction/exponent *)
+        else if res_is (j2t_do (mkPolicy num_drift false true) D o t text) pre out then VKnown 208  (* api.js_conv on an i16 field: one extra byte *)
         else VBad 1 [FB b; FZ cp]
       else
         (* finding 203: an escape sequence inside a base64 binary / a string-spelled number is not unescaped by the code *)
-        match j2t_text strict D o t (poison (length text) text) with
+        match j2t_do strict D o t (poison (length text) text) with
         | Err _ => VKnown 203
         | Ok _ =>
           (* finding 209: a null member for an api.js_conv field is an error instead of being omitted *)
-          match j2t_text (mkPolicy num_strict false true) D o t text with
+          match j2t_do (mkPolicy num_strict false true) D o t text with
           | Err _ => VKnown 209
           | Ok _ => VBad 2 [FB b; FZ cp; FZ ec]
           end
@@ -225,17 +226,17 @@ Section Judge.
       if negb (ec =? 0) then (if (c =? E_UNKNOWN) && negb (ec =? 1) then VDrift 3 else VOk)
       else
         match text with
-        | [] => if bytes_eqb out (pre ++ [0]) then match t with TStruct _ => VDrift 4 | _ => VKnown 201 end else VBad 3 [FZ cp]
+        | [] => VBad 3 [FZ cp]
         | _ =>
           match json_parse_prefix text with
           | Some (JNull, _) => if bytes_eqb out pre then VKnown 204 else VBad 4 [FZ cp]
           | Some _ =>
-            if res_is (j2t_text (mkPolicy num_code false false) D o t text) pre out then VKnown 202
-            else if res_is (j2t_text (mkPolicy num_code true false) D o t text) pre out then VKnown 206
-            else if res_is (j2t_text (mkPolicy num_code true true) D o t text) pre out then VKnown 208
+            if res_is (j2t_do (mkPolicy num_code false false) D o t text) pre out then VKnown 202
+            else if res_is (j2t_do (mkPolicy num_code true false) D o t text) pre out then VKnown 206
+            else if res_is (j2t_do (mkPolicy num_code true true) D o t text) pre out then VKnown 208
             else VBad 5 [FZ c; FZ cp]
           | None =>
-            if res_is (j2t_text strict D o t (repair_ctl false false text)) pre out then VKnown 205 else VBad 6 [FZ cp]
+            if res_is (j2t_do strict D o t (repair_ctl false false text)) pre out then VKnown 205 else VBad 6 [FZ cp]
           end
         end
     end.
@@ -251,15 +252,8 @@ Definition check_201 (fs : list field) : verdict :=
       match parse_obs02 (Z.to_nat n) r' with
       | None => VBad 97 []
       | Some obs =>
-        (* the unquoted top-level string special case of impl.go is outside the property: the text is not JSON *)
-        let in_domain := match t, text with
-                         | (TString | TBinary), c :: _ => c =? 34
-                         | (TString | TBinary), [] => true
-                         | _, _ => true
-                         end in
-        if negb in_domain then VSkip else
         let o := opts02 bits in
-        let m := j2t_text strict D o t text in
+        let m := j2t_do strict D o t text in
         if negb (match json_parse_prefix text with Some (j, _) => nums_consistent j | None => true end) then VBad 90 [] else
         fold_left (fun acc ob => worse acc (judge02 D o t text m oob ob)) obs VOk
       end
